@@ -30,6 +30,7 @@ func init() {
 		Assumptions: []string{"resource.Value/Collection write semantics (C02, C05)", "unitpb.Convert32 arithmetic (C18)"},
 		Run:         runC20,
 		Controls: []Control{
+			{Name: "inventory-options-replace", File: "pkg/trait/vendingpb/model_opts.go", Old: "\t\targs.inventoryOptions = append(args.inventoryOptions, opts...)", New: "\t\targs.inventoryOptions = opts", Expect: "R20.23"},
 			{Name: "add-child-overwrites", File: "pkg/trait/parentpb/model.go", Old: "m.children.Add(child.Name, child)", New: "m.children.Update(child.Name, child, resource.WithCreateIfAbsent())", Expect: "R20.22"},
 			{Name: "refused-dispense-merged-without-reset", File: "pkg/trait/vendingpb/model.go", Old: "\t\t\tproto.Reset(newVal)\n\t\t\tproto.Merge(newVal, oldVal)\n", New: "\t\t\tproto.Merge(newVal, oldVal)\n", Expect: "R20.21"},
 			{Name: "revert-F66-step-added-unreduced", File: "pkg/trait/modepb/model_server.go", Old: "newI := (int32(i) + adjustment%int32(len(values))) % int32(len(values))", New: "newI := (int32(i) + adjustment) % int32(len(values))", Expect: "R20.20"},
@@ -70,6 +71,8 @@ func runC20(c *an.Ctx) {
 	r2017(c, "R20.17")
 	r2018(c, "R20.18")
 	c.Min("R20.18", 3)
+	r2023(c, "R20.23")
+	c.Min("R20.23", 3)
 	r2022(c, "R20.22")
 	c.Min("R20.22", 1)
 	r2021(c, "R20.21")
@@ -2510,4 +2513,64 @@ func r2022(c *an.Ctx, rule string) {
 	}
 	c.Check(ok && n > 0, rule, name+"|an existing child is left as it is", fn.Pos(), "written with Collection.Add / WithExpectAbsent",
 		"AddChild writes the child with an Update that does not expect it to be absent: an existing child is overwritten and the traits accumulated by AddChildTrait/RemoveChildTrait are lost")
+}
+
+// r2023: options that collect resource options for one of a model's resources ADD to what was collected. A model is
+// configured with several of them (WithInitialStock twice: "can be used multiple times with stock being additive");
+// an option that assigns instead of appending keeps only the last one, so configured stock/items silently vanish.
+// Every With… option of a trait package that stores its variadic resource options into a slice of the model's
+// arguments stores a value built from the slice's current content and its own argument.
+func r2023(c *an.Ctx, rule string) {
+	n := 0
+	for _, fn := range c.Prog.FuncsIn("pkg/trait") {
+		if fn.Parent() != nil || !strings.HasSuffix(c.Prog.RelFile(fn.Pos()), "/model_opts.go") || !strings.HasPrefix(fn.Name(), "With") || !fn.Signature.Variadic() || len(fn.Params) == 0 {
+			continue
+		}
+		prm := fn.Params[len(fn.Params)-1]
+		for _, cl := range fn.AnonFuncs {
+			an.Instrs(cl, func(in ssa.Instruction) {
+				st, ok := in.(*ssa.Store)
+				if !ok {
+					return
+				}
+				_, _, fld, isF := an.FieldOf(st.Addr)
+				if !isF {
+					return
+				}
+				if sl, isSl := st.Val.Type().Underlying().(*types.Slice); !isSl || !types.Identical(st.Val.Type(), prm.Type()) || !strings.HasSuffix(an.NamedTypeName(sl.Elem()), "pkg/resource.Option") {
+					return // (lists of presets, modes, … are configuration values that a later option replaces by design)
+				}
+				n++
+				c.SawFunc(an.FuncName(fn))
+				fromField, fromParam := false, false
+				srcs := an.Sources(st.Val)
+				for _, s0 := range append([]ssa.Value(nil), srcs...) {
+					if call, isCall := s0.(*ssa.Call); isCall {
+						for _, a := range call.Call.Args {
+							srcs = append(srcs, an.Sources(a)...)
+						}
+					}
+				}
+				for _, s0 := range srcs {
+					if s0 == ssa.Value(prm) {
+						fromParam = true
+					}
+					if fv, isFV := s0.(*ssa.FreeVar); isFV && fv.Name() == prm.Name() {
+						fromParam = true
+					}
+					if u, isU := s0.(*ssa.UnOp); isU {
+						if _, _, f2, ok2 := an.FieldOf(u.X); ok2 && f2 == fld {
+							fromField = true
+						}
+						if fv, isFV := u.X.(*ssa.FreeVar); isFV && fv.Name() == prm.Name() {
+							fromParam = true
+						}
+					}
+				}
+				c.Check(fromField && fromParam, rule, an.FuncName(fn)+"|adds to the options collected so far", st.Pos(), "stored value = append(current "+fld+", argument…)",
+					"the option replaces the resource options collected so far instead of adding to them: of several such options only the last one counts (initial records given in two options: the first set is gone)")
+			})
+		}
+	}
+	c.Count("collecting_model_options", n)
 }
